@@ -21,11 +21,12 @@ package gossip
 // entries.
 //@ pure nsInv(n *nodeState) bool = n.Entries != nil && allocated(n.Entries)
 //@    && (forall k string {n.Entries[k]} :: k in n.Entries ==> n.Entries[k].Key == k && 1 <= n.Entries[k].Version && n.Entries[k].Version <= n.Version)
-//@    && (forall k1 string, k2 string {n.Entries[k1], n.Entries[k2]} :: k1 in n.Entries && k2 in n.Entries && k1 != k2 ==> n.Entries[k1].Version != n.Entries[k2].Version)
+//@    && (forall k string {n.Entries[k]} :: k in n.Entries ==> keyWith(n.Entries, "Version", n.Entries[k].Version) == k)
 
 // The cluster state: the local node is always known, is never unreachable and
 // never expires; every node is stored under its own id; nodes share nothing.
 //@ pure csInv(s *clusterState) bool = s.nodes != nil && s.localID in s.nodes
+//@    && s.nodes[s.localID] != nil && nsInv(s.nodes[s.localID])
 //@    && (forall id string :: id in s.nodes ==> s.nodes[id] != nil && allocated(s.nodes[id]) && s.nodes[id].ID == id && nsInv(s.nodes[id]))
 //@    && (forall a string, b string :: a in s.nodes && b in s.nodes && a != b ==> s.nodes[a] != s.nodes[b] && s.nodes[a].Entries != s.nodes[b].Entries)
 //@    && !s.nodes[s.localID].Unreachable && s.nodes[s.localID].Expiry.IsZero()
